@@ -50,12 +50,20 @@ func join(p, n string) string {
 // walkValue visits every string leaf of v (v must be addressable for set to work).
 // visit returns false to stop.
 func walkValue(v reflect.Value, path string, visit func(path string, isKey bool, get func() string, set func(string))) {
+	walkValueTo(v, path, "", visit)
+}
+
+// walkValueTo is walkValue restricted to the subtrees that can contain the leaf [want] ("" = everything)
+func walkValueTo(v reflect.Value, path, want string, visit func(path string, isKey bool, get func() string, set func(string))) {
+	if want != "" && !strings.HasPrefix(want, path) {
+		return
+	}
 	switch v.Kind() {
 	case reflect.String:
 		visit(path, false, func() string { return v.String() }, func(s string) { v.SetString(s) })
 	case reflect.Ptr, reflect.Interface:
 		if !v.IsNil() {
-			walkValue(v.Elem(), path, visit)
+			walkValueTo(v.Elem(), path, want, visit)
 		}
 	case reflect.Struct:
 		t := v.Type()
@@ -72,11 +80,11 @@ func walkValue(v reflect.Value, path string, visit func(path string, isKey bool,
 			if !inline || n != "" {
 				p = join(path, n)
 			}
-			walkValue(v.Field(i), p, visit)
+			walkValueTo(v.Field(i), p, want, visit)
 		}
 	case reflect.Slice, reflect.Array:
 		for i := 0; i < v.Len(); i++ {
-			walkValue(v.Index(i), fmt.Sprintf("%s[%d]", path, i), visit)
+			walkValueTo(v.Index(i), fmt.Sprintf("%s[%d]", path, i), want, visit)
 		}
 	case reflect.Map:
 		if v.Type().Key().Kind() != reflect.String {
@@ -104,7 +112,7 @@ func walkValue(v reflect.Value, path string, visit func(path string, isKey bool,
 				// non-string map values: copy out, walk, copy back
 				tmp := reflect.New(v.Type().Elem()).Elem()
 				tmp.Set(elem)
-				walkValue(tmp, fmt.Sprintf("%s[%s]", path, ks), func(p string, isKey bool, get func() string, set func(string)) {
+				walkValueTo(tmp, fmt.Sprintf("%s[%s]", path, ks), want, func(p string, isKey bool, get func() string, set func(string)) {
 					visit(p, isKey, get, func(s string) { set(s); v.SetMapIndex(k, tmp) })
 				})
 			}
@@ -138,7 +146,7 @@ func leavesOf(root any, prefix string) []Leaf {
 // setLeaf sets the leaf at path inside the value root points to; false if the path does not exist.
 func setLeaf(root any, prefix, path, val string) bool {
 	done := false
-	walkValue(reflect.ValueOf(root).Elem(), prefix, func(p string, _ bool, _ func() string, set func(string)) {
+	walkValueTo(reflect.ValueOf(root).Elem(), prefix, path, func(p string, _ bool, _ func() string, set func(string)) {
 		if !done && p == path {
 			set(val)
 			done = true
